@@ -182,6 +182,7 @@ theorem merge_raises_of_few_spikes (fs : FS) (subdirs : List String) (out : Stri
 theorem merge_raises_of_ragged_tables (fs : FS) (subdirs : List String) (out : String) (hout : out ∉ subdirs)
     (name : String) (hname : name = "pc_feature_ind.npy" ∨ name = "template_feature_ind.npy")
     (tables : List (List (List Nat))) (hl : loadEach (readTable fs name) subdirs = .ok tables)
+    (_hne : ∀ t ∈ tables, t ≠ [])
     (hr : sameWidth tables = false) : (merge fs subdirs out).2 ≠ none := by
   intro hnone
   obtain ⟨I, hL, hD, _⟩ := merge_ok fs subdirs out (merge fs subdirs out).1.1 (merge fs subdirs out).1.2
